@@ -456,6 +456,7 @@ impl <N: Numeric> ArrayCreateNumeric<N> for Array<N> {
 
     fn linspace(start: N, stop: N, num: Option<usize>, endpoint: Option<bool>) -> Result<Self, ArrayError> {
         let (num, endpoint) = (num.unwrap_or(50), endpoint.unwrap_or(true));
+        if num == 0 { return Self::flat(vec![]) }
         let delta = endpoint.to_usize();
         let step = (stop.to_f64() - start.to_f64()) / (num - delta).to_f64();
 
